@@ -38,9 +38,13 @@ Generators == <<"Langmuir", "Toth", "DSLangmuir">>
 Kinds == <<"model", "point">>
 \* common unit configurations (pressure unit, loading basis/unit, material basis/unit, temperature unit)
 UnitConfigs == <<
-   [name |-> "bar-mmol-g-K", pressure_unit |-> "bar", loading_basis |-> "molar", loading_unit |-> "mmol", material_basis |-> "mass", material_unit |-> "g", temperature_unit |-> "K"],
-   [name |-> "kPa-cm3STP-g-C", pressure_unit |-> "kPa", loading_basis |-> "molar", loading_unit |-> "cm3(STP)", material_basis |-> "mass", material_unit |-> "g", temperature_unit |-> "°C"],
-   [name |-> "torr-mg-kg-K", pressure_unit |-> "torr", loading_basis |-> "mass", loading_unit |-> "mg", material_basis |-> "mass", material_unit |-> "kg", temperature_unit |-> "K"] >>
+   [name |-> "bar-mmol-g-K", pressure_mode |-> "absolute", adsorbate |-> "N2", pressure_unit |-> "bar", loading_basis |-> "molar", loading_unit |-> "mmol", material_basis |-> "mass", material_unit |-> "g", temperature_unit |-> "K"],
+   [name |-> "kPa-cm3STP-g-C", pressure_mode |-> "absolute", adsorbate |-> "N2", pressure_unit |-> "kPa", loading_basis |-> "molar", loading_unit |-> "cm3(STP)", material_basis |-> "mass", material_unit |-> "g", temperature_unit |-> "°C"],
+   [name |-> "torr-mg-kg-K", pressure_mode |-> "absolute", adsorbate |-> "N2", pressure_unit |-> "torr", loading_basis |-> "mass", loading_unit |-> "mg", material_basis |-> "mass", material_unit |-> "kg", temperature_unit |-> "K"],
+   \* relative pressure p/p0(T) is a unit common to all isotherms too (p0 differs per isotherm): needs an adsorbate that is
+   \* subcritical over the whole temperature pool (n-butane: 135 K .. 425 K)
+   [name |-> "relative-mmol-g-K", pressure_mode |-> "relative", adsorbate |-> "n-butane", pressure_unit |-> "none", loading_basis |-> "molar", loading_unit |-> "mmol", material_basis |-> "mass", material_unit |-> "g", temperature_unit |-> "K"],
+   [name |-> "relative%-mmol-g-C", pressure_mode |-> "relative%", adsorbate |-> "n-butane", pressure_unit |-> "none", loading_basis |-> "molar", loading_unit |-> "mmol", material_basis |-> "mass", material_unit |-> "g", temperature_unit |-> "°C"] >>
 \* accuracy the property states: exact for model isotherms, interpolation accuracy for sampled ones
 Tol(kind) == IF kind = "model" THEN DTol(6) ELSE DTol(2)
 
@@ -48,7 +52,7 @@ IsoScenarios ==
    LET subs == SetToSortSeq(Subsets, LAMBDA A, B : Cardinality(A) < Cardinality(B) \/ (Cardinality(A) = Cardinality(B) /\ Asc(A) # Asc(B) /\
                                                   LET d == CHOOSE i \in 1..Len(Asc(A)) : Asc(A)[i] # Asc(B)[i] /\ \A j \in 1..(i - 1) : Asc(A)[j] = Asc(B)[j]
                                                   IN Asc(A)[d] < Asc(B)[d]))
-   IN [h \in 1..Len(DHs), s \in 1..Len(subs), o \in 1..3, g \in 1..3, k \in 1..2, u \in 1..3 |->
+   IN [h \in 1..Len(DHs), s \in 1..Len(subs), o \in 1..3, g \in 1..3, k \in 1..2, u \in 1..Len(UnitConfigs) |->
          [dH |-> DHs[h], temps |-> Ordered(subs[s], OrderKinds[o]), order |-> OrderKinds[o], gen |-> Generators[g], kind |-> Kinds[k], units |-> UnitConfigs[u]]]
 
 \* q: [dH : integer kJ/mol; kind; nreq : number of loading points requested; h : returned enthalpies (kJ/mol);
@@ -61,20 +65,25 @@ IsoJudge(q) ==
    IN [len |-> Len(q.h) = q.nreq /\ Len(q.slopes) = q.nreq, enthalpy |-> badH, slope |-> badS]
 
 ---------------------------------------------------------------------------
-\* Whittaker.  q: [model : "Langmuir" | "Toth"; T; nm; K (1/Pa); t (DecFloat, 1 for Langmuir);
+\* Whittaker.  q: [model : "Langmuir" | "Toth"; T; nm; Kunit (affinity per pressure unit punit of the description); t (DecFloat, 1 for Langmuir);
 \*   pt, pc, psat : observations of the adsorbate API (Pa);
 \*   n : requested loadings; root : (1 - theta^t)^(1/t) per loading (harness, = 1 - theta for Langmuir, checked here);
 \*   lnterm : ln[ psat K (theta^t/(1-theta^t))^((t-1)/t) ] per loading (harness);
 \*   hvap : observation of adsorbate.enthalpy_vaporisation(press = p_k) in kJ/mol per loading (<<0,9999>> if the API refuses);
 \*   hvap_t : the same at the triple-point pressure;
 \*   rn, rh : returned loadings and enthalpies (kJ/mol)]
+\* pascals per pressure unit (SI definitions; torr = 101325/760 Pa): a model isotherm may be expressed in any of them;
+\* the affinity K of the model is then per that unit and the closed form needs it per Pa
+UnitPa == [Pa |-> DInt(1), kPa |-> DInt(1000), bar |-> DInt(100000), torr |-> DL(133322368, -6)]
+WhitModelUnits == <<"Pa", "kPa", "bar", "torr">>
+KPa(q) == DDiv(q.Kunit, UnitPa[q.punit])
 NoVal(x) == x[2] = 9999
 One == DInt(1)
 Theta(q, k) == DDiv(q.n[k], q.nm)
 \* pressure of loading k from the model equation: p = theta / (K (1 - theta^t)^(1/t))
 \* (for Langmuir, t = 1, the root is 1 - theta and is computed here; for Toth the real power is harness input)
 Root(q, k) == IF q.model = "Langmuir" THEN DSub(One, Theta(q, k)) ELSE q.root[k]
-PressureOf(q, k) == DDiv(Theta(q, k), DMul(q.K, Root(q, k)))
+PressureOf(q, k) == DDiv(Theta(q, k), DMul(KPa(q), Root(q, k)))
 RootOk(q) == q.model = "Langmuir" => \A k \in Idx(q.n) : q.n[k][1] = 0 \/ DCloseAbs(q.root[k], DSub(One, Theta(q, k)), DTol(4), DL(1, -9))
 PHi(q) == IF DLeq(q.psat, q.pc) THEN q.psat ELSE q.pc
 Margin == DL(1, -5)
@@ -129,11 +138,18 @@ WhitStorage == <<
 ---------------------------------------------------------------------------
 \* Initial enthalpy point: rows = sequence of [b |-> 0 (adsorption) | 1 (desorption), h |-> enthalpy], branch requested
 Layouts == {<<na, nd>> : na \in 1..3, nd \in 0..3}
-Patterns == <<"up", "down", "peak">>
-HVal(pat, i, n) == CASE pat = "up" -> 10 + 3 * i [] pat = "down" -> 40 - 2 * i [] pat = "peak" -> IF 2 * i <= n THEN 20 + i ELSE 30 - i
-RowsOf(lay, pat) == LET n == lay[1] + lay[2] IN [i \in 1..n |-> [b |-> IF i <= lay[1] THEN 0 ELSE 1, h |-> HVal(pat, i, n)]]
+\* "neg" / "zero" / "huge": the first row of each branch is negative / zero / far above any physical enthalpy - the
+\* method returns the first MEASURED value, whatever it is
+Patterns == <<"up", "down", "peak", "neg", "zero", "huge">>
+HVal(pat, i, n, na) ==
+   LET first == i = 1 \/ i = na + 1 IN
+   CASE pat = "up" -> 10 + 3 * i [] pat = "down" -> 40 - 2 * i [] pat = "peak" -> IF 2 * i <= n THEN 20 + i ELSE 30 - i
+     [] pat = "neg" -> IF first THEN -7 - i ELSE 20 + i
+     [] pat = "zero" -> IF first THEN 0 ELSE 25 - i
+     [] pat = "huge" -> IF first THEN 450 + 100 * i ELSE 30 + i
+RowsOf(lay, pat) == LET n == lay[1] + lay[2] IN [i \in 1..n |-> [b |-> IF i <= lay[1] THEN 0 ELSE 1, h |-> HVal(pat, i, n, lay[1])]]
 PointScenarios == LET L == SetToSortSeq(Layouts, LAMBDA x, y : x[1] < y[1] \/ (x[1] = y[1] /\ x[2] < y[2]))
-                  IN [l \in 1..Len(L), p \in 1..3, b \in 1..2 |-> [rows |-> RowsOf(L[l], Patterns[p]), branch |-> <<"ads", "des">>[b]]]
+                  IN [l \in 1..Len(L), p \in 1..Len(Patterns), b \in 1..2 |-> [rows |-> RowsOf(L[l], Patterns[p]), branch |-> <<"ads", "des">>[b]]]
 FirstOf(rows, branch) == LET want == IF branch = "ads" THEN 0 ELSE 1
                              S == {i \in Idx(rows) : rows[i].b = want}
                          IN IF S = {} THEN [some |-> FALSE, h |-> 0] ELSE [some |-> TRUE, h |-> rows[CHOOSE i \in S : \A j \in S : i <= j].h]
